@@ -5,7 +5,7 @@ from vlib.common import coq_list
 from props.c05 import body_of, write_headers, classify
 
 THEOREMS = ["C11_crash_leaves_old_or_new", "C11_acknowledged_writes_survive", "C11_recovery_is_possible", "C11_versioned_delete_keeps_version", "C11_versioned_delete_frame", "C11_marker_first_order_refuted", "C11_directory_object_first_upload_atomic", "C11_directory_object_overwrite_refuted",
-            "C11_delete_current_version_atomic", "C11_delete_current_version_completes", "C11_remove_first_order_refuted"]
+            "C11_delete_current_version_atomic", "C11_delete_current_version_completes", "C11_remove_first_order_refuted", "C11_versioned_delete_atomic"]
 TARGETS = ["Properties/C11.vo", "Check/CrashCheck.vo"]
 CONFIGS = [("otmpfile+xattr", {"iam": False}), ("named-temp+xattr", {"iam": False, "otmp": False}), ("otmpfile+xattr+versioned", {"iam": False, "versioning": True}),
            ("otmpfile+sidecar", {"iam": False, "meta": "sidecar"}), ("named-temp+sidecar", {"iam": False, "otmp": False, "meta": "sidecar"}),
@@ -163,8 +163,8 @@ def run(chk):
                     # need another request on the same key to be cleared away
                     direct = wid % 2 == 1
                     row["then"] = "bucket emptied and deleted at once" if direct else "later requests on the key, then bucket emptied and deleted"
-                    if state == "missing" and not direct:
-                        # ---- (b3) the name of the key's parent directory can be used as a key
+                    if state == "missing" and not direct and not (versioned and ids):
+                        # ---- (b3) the name of the key's parent directory can be used as a key (unless the key still has versions or a delete marker)
                         pp = "/%s/dir" % bk
                         rq_ = R.req("PUT", pp, body=b"parent-name-as-key")
                         gq_ = R.req("GET", pp)
